@@ -25,6 +25,16 @@ def _c01_units(prefix, prop, cq, ct):
     return us
 
 PROPERTIES = {
+ 'C06': dict(
+    level='exploration', exhaustive_claim=True,
+    rule='exhaustive 8/16-bit integers of every integer type and all format thresholds; generated values of 87 typed models (floats incl. NaN payloads/Inf/subnormals, strings/bin/arrays/maps at length thresholds, negative and sub-second chrono values, classes with base class and conditional member, maps with every key type); oracle = independent strict MessagePack decoder + independently derived tree + minimal-format rule + memory == stream bytes',
+    assumptions=TRUSTED + ['ref_msgpack.h (from the MessagePack specification; vectors cross-checked with msgpack-python 1.1.1), self-tested at start', 'ties between integer families of equal size are allowed', 'recorded finding KF-35 (timestamp 96 field order) is excused only for that field order and witnessed'],
+    units=[U('c06_g%d' % g, 'c06_msgpack_write.cpp', flavour='asan', cflags=['-DMODEL_GROUP=%d' % g], libs=['-lpugixml'], quick=dict(cases=60000, shards=5, min_eval=50000), thorough=dict(cases=1500000, shards=5, min_eval=500000)) for g in (0, 1, 2)]),
+ 'C07': dict(
+    level='exploration', exhaustive_claim=False,
+    rule='typed model values and arbitrary-shape trees encoded by an independent encoder with adversarial format choices (any legal width / integer family / float width / timestamp layout / key order), every strict prefix (sampled) and single-byte corruptions at node, length and payload offsets; both readers (memory, stream incl. short reads); oracle = independent reference decoder',
+    assumptions=TRUSTED + ['ref_msgpack.h encoder/decoder, self-tested', 'bytes after the first complete object are not examined by the loader (not judged)', 'nil is "not loaded" by design', 'non-finite floats keep their width (C04 rule)', 'recorded finding KF-35 excluded for the 96-bit layout and witnessed'],
+    units=[U('c07_g%d' % g, 'c07_msgpack_read.cpp', flavour='asan', cflags=['-DMODEL_GROUP=%d' % g], libs=['-lpugixml'], quick=dict(cases=60000 if g == 0 else 40000, shards=5, min_eval=50000), thorough=dict(cases=1500000, shards=5, min_eval=500000)) for g in (0, 1, 2)]),
  'C01': dict(
     level='exploration', exhaustive_claim=False,
     rule='generated typed model values (87 types: fundamentals, 4 string widths, enum, classes with base class / external serialization, chrono, every std container / optional / smart pointer / tuple / pair, nested) x 4 archives x {root, object member} x {memory, stringstream, short-read stream} x 5 encodings x BOM x pretty-print/padding x CSV separators; oracle = round trip (deep equality, floats bitwise) + load-save-load fixed point',
